@@ -268,6 +268,10 @@ func runC13(ctx *Ctx) {
 	if ctx.Want(100000) {
 		c13Golden(ctx, 100000)
 	}
+	// (g) acknowledged writes under heavy contention on one record
+	if ctx.Want(100001) {
+		contendedWrites(ctx, 100001, "c13")
+	}
 }
 
 func c13Kill(ctx *Ctx, i int) {
